@@ -13,10 +13,10 @@ import (
 type specExpr interface{}
 
 type (
-	eIdent  struct{ name string }
-	eInt    struct{ v string }
-	eStr    struct{ v string }
-	eSel    struct {
+	eIdent struct{ name string }
+	eInt   struct{ v string }
+	eStr   struct{ v string }
+	eSel   struct {
 		x    specExpr
 		name string
 	}
@@ -396,11 +396,11 @@ func (p *specParser) postfix(e specExpr) specExpr {
 // ---------------------------------------------------------------- contract files
 
 type clause struct {
-	uses    []string // labels of the loop invariants this clause's proof needs (nil = all)
-	label   string
-	src     string
-	expr    specExpr
-	line    specLine
+	uses     []string // labels of the loop invariants this clause's proof needs (nil = all)
+	label    string
+	src      string
+	expr     specExpr
+	line     specLine
 	witness  string
 	cover    bool
 	variadic bool
@@ -454,7 +454,8 @@ type FuncSpec struct {
 	nopanic      bool
 	arithChecked bool
 	pure         bool
-	persite      bool // decide each site of an obligation separately from the start
+	persite      bool            // decide each site of an obligation separately from the start
+	options      map[string]bool // proof-engineering switches (`option <name>`); never change what is proved, only which triggers are emitted
 	slots        []*slotClause
 	line         specLine
 	assumeOnly   bool // contract assumed, not verified (listed in trusted base)
@@ -490,12 +491,12 @@ type immDecl struct {
 
 type SpecSet struct {
 	immutables []immDecl
-	funcs  map[string]*FuncSpec // key pkg + "#" + name
-	order  []*FuncSpec
-	specFn map[string]map[string]*specFunc // per package
-	lemmas []*lemmaSpec
-	axioms []*lemmaSpec
-	errs   []string
+	funcs      map[string]*FuncSpec // key pkg + "#" + name
+	order      []*FuncSpec
+	specFn     map[string]map[string]*specFunc // per package
+	lemmas     []*lemmaSpec
+	axioms     []*lemmaSpec
+	errs       []string
 }
 
 func newSpecSet() *SpecSet {
@@ -533,7 +534,7 @@ func splitLabel(s string) (label, rest string) {
 
 var clauseKeywords = map[string]bool{"func": true, "property": true, "ghost": true, "requires": true, "ensures": true, "loop": true,
 	"modifies": true, "reads": true, "safety": true, "nopanic": true, "arith": true, "pure": true, "slots": true, "kinds": true, "spec": true,
-	"lemma": true, "axiom": true, "assumed": true, "cover": true, "timeout": true, "macro": true, "immutable": true, "opaque": true, "persite": true}
+	"lemma": true, "axiom": true, "assumed": true, "cover": true, "timeout": true, "macro": true, "immutable": true, "opaque": true, "persite": true, "option": true}
 
 // parseContracts parses the //@ lines of one package.
 func (ss *SpecSet) parseContracts(pkg string, lines []specLine) {
@@ -655,6 +656,10 @@ func (ss *SpecSet) parseContracts(pkg string, lines []specLine) {
 			}
 			continue
 		case "property":
+			if cur != nil && len(cur.props) > 0 {
+				// a second property line closes the func block: it is a section header
+				cur = nil
+			}
 			if cur == nil {
 				curProps = strings.Fields(rest)
 				continue
@@ -756,6 +761,13 @@ func (ss *SpecSet) parseContracts(pkg string, lines []specLine) {
 			cur.pure = true
 		case "persite":
 			cur.persite = true
+		case "option":
+			if cur.options == nil {
+				cur.options = map[string]bool{}
+			}
+			for _, m := range strings.Fields(rest) {
+				cur.options[m] = true
+			}
 		case "assumed":
 			cur.assumeOnly = true
 		case "timeout":
